@@ -46,7 +46,98 @@ fn report(out: rzmq::protocol::zmtp::actions::EngineOutput) {
   }
 }
 
+fn parse_cfg<'a>(it: &mut dyn Iterator<Item = &'a str>) -> EngineCfg {
+  let mut cfg = EngineCfg::default();
+  for kv in it {
+    if kv == "--" {
+      break;
+    }
+    let (k, v) = kv.split_once('=').unwrap();
+    match k {
+      "type" => cfg.socket_type_name = v.to_string(),
+      "plain_user" => {
+        cfg.use_plain = true;
+        cfg.plain_username = Some(String::from_utf8_lossy(&unhex(v)).into_owned())
+      }
+      "plain_pass" => cfg.plain_password = Some(String::from_utf8_lossy(&unhex(v)).into_owned()),
+      "use_plain" => cfg.use_plain = v == "1",
+      "allow_zmtp2" => cfg.allow_zmtp2 = v == "1",
+      "security" => cfg.security_enabled = v == "1",
+      "hb_ivl_ms" => cfg.heartbeat_ivl = Some(Duration::from_millis(v.parse().unwrap())),
+      "hb_timeout_ms" => cfg.heartbeat_timeout = Some(Duration::from_millis(v.parse().unwrap())),
+      "maxmsg" => cfg.max_msg_size = v.parse().unwrap(),
+      "routing_id" => cfg.routing_id = Some(unhex(v)),
+      _ => panic!("unknown key {}", k),
+    }
+  }
+  cfg
+}
+
+/// Two engines wired back to back (client = connector, server = listener) with explicit delivery steps.
+struct Pair {
+  c: ZmtpEngine,
+  s: ZmtpEngine,
+  to_s: Vec<u8>,
+  to_c: Vec<u8>,
+  hc_c: Vec<String>,
+  hc_s: Vec<String>,
+  err_c: usize,
+  err_s: usize,
+}
+
+impl Pair {
+  fn absorb(&mut self, out: rzmq::protocol::zmtp::actions::EngineOutput, from_server: bool) {
+    for n in out.net_actions {
+      if let NetAction::Send { data, .. } = n {
+        if from_server {
+          self.to_c.extend_from_slice(&data);
+        } else {
+          self.to_s.extend_from_slice(&data);
+        }
+      }
+    }
+    for a in out.app_actions {
+      match a {
+        AppAction::HandshakeComplete { peer_identity, peer_socket_type } => {
+          let l = format!(
+            "identity={} type={}",
+            peer_identity.map(|b| hex(b.as_ref())).unwrap_or_else(|| "none".into()),
+            peer_socket_type.unwrap_or_else(|| "none".into())
+          );
+          if from_server {
+            self.hc_s.push(l)
+          } else {
+            self.hc_c.push(l)
+          }
+        }
+        AppAction::PeerError(_) => {
+          if from_server {
+            self.err_s += 1
+          } else {
+            self.err_c += 1
+          }
+        }
+        _ => {}
+      }
+    }
+  }
+  fn deliver(&mut self, to_server: bool, n: usize) {
+    if to_server {
+      let n = n.min(self.to_s.len());
+      let chunk: Vec<u8> = self.to_s.drain(..n).collect();
+      let out = self.s.on_network_bytes(bytes::Bytes::from(chunk));
+      self.absorb(out, true);
+    } else {
+      let n = n.min(self.to_c.len());
+      let chunk: Vec<u8> = self.to_c.drain(..n).collect();
+      let out = self.c.on_network_bytes(bytes::Bytes::from(chunk));
+      self.absorb(out, false);
+    }
+  }
+}
+
 fn main() {
+  let mut pair: Option<Pair> = None;
   let stdin = std::io::stdin();
   let mut eng: Option<ZmtpEngine> = None;
   let mut trie: Option<rzmq::verif_facade::VSubscriptionTrie> = None;
@@ -63,6 +154,67 @@ fn main() {
       None => continue,
     };
     match cmd {
+      "pair" => {
+        // pair <client key=value...> -- <server key=value...>
+        let ccfg = parse_cfg(&mut it);
+        let scfg = parse_cfg(&mut it);
+        let mut p = Pair { c: new_engine(false, ccfg), s: new_engine(true, scfg), to_s: vec![], to_c: vec![], hc_c: vec![], hc_s: vec![], err_c: 0, err_s: 0 };
+        let o = p.c.start();
+        p.absorb(o, false);
+        let o = p.s.start();
+        p.absorb(o, true);
+        pair = Some(p);
+        println!("pair ok");
+      }
+      "pdeliver" => {
+        // pdeliver <s|c> <n|all>: deliver pending bytes to the server / client engine
+        let p = pair.as_mut().unwrap();
+        let to_server = it.next().unwrap() == "s";
+        let n = match it.next().unwrap() {
+          "all" => usize::MAX,
+          v => v.parse().unwrap(),
+        };
+        p.deliver(to_server, n);
+      }
+      "pstep" => {
+        // pstep <dir 0|1> <one 0|1>: one free delivery decision, normalised exactly as the symbolic driver does
+        let p = pair.as_mut().unwrap();
+        let dir: u32 = it.next().unwrap().parse().unwrap();
+        let one: u32 = it.next().unwrap().parse().unwrap();
+        if !(p.to_s.is_empty() && p.to_c.is_empty()) {
+          let mut d = dir == 1;
+          if (d && p.to_s.is_empty()) || (!d && p.to_c.is_empty()) {
+            d = !p.to_s.is_empty();
+          }
+          let n = if one == 1 { 1 } else { usize::MAX };
+          p.deliver(d, n);
+        }
+      }
+      "pflush" => {
+        let p = pair.as_mut().unwrap();
+        for _ in 0..40 {
+          if p.to_s.is_empty() && p.to_c.is_empty() {
+            break;
+          }
+          if !p.to_s.is_empty() {
+            p.deliver(true, usize::MAX);
+          }
+          if !p.to_c.is_empty() {
+            p.deliver(false, usize::MAX);
+          }
+        }
+        println!(
+          "pair client_phase={:?} server_phase={:?} pending={}/{} hc_client=[{}] hc_server=[{}] errors={}/{}",
+          p.c.phase,
+          p.s.phase,
+          p.to_s.len(),
+          p.to_c.len(),
+          p.hc_c.join(";"),
+          p.hc_s.join(";"),
+          p.err_c,
+          p.err_s
+        );
+      }
       "engine" => {
         let role = it.next().unwrap();
         let mut cfg = EngineCfg::default();
